@@ -45,6 +45,8 @@ Theorem sha512_any_split :
     sha512_run chunks = HOk (sha512_spec (concat chunks)).
 Proof. exact sha512_any_split_lemma. Qed.
 Print Assumptions sha512_any_split.
+Example sha512_any_split_hyp : 8 * zlen (concat [[]; repeat 5 200; [3]]) < 2 ^ 64.
+Proof. reflexivity. Qed.
 
 Theorem sha512_oneshot_is_standard :
   forall data, 8 * zlen data < 2 ^ 64 -> sha512_oneshot data = HOk (sha512_spec data).
@@ -59,6 +61,8 @@ Theorem sha512_update_app :
       sha512_done c12 = HOk (sha512_spec (msg ++ a ++ b)).
 Proof. exact sha512_update_app_lemma. Qed.
 Print Assumptions sha512_update_app.
+Example sha512_update_app_hyp : sha512_reached sha512_init [] /\ 8 * (zlen (@nil Z) + zlen [1] + zlen [2]) < 2 ^ 64.
+Proof. split; [exists []; split; reflexivity|reflexivity]. Qed.
 
 (* ----------------------------------------- SHA-1 ----------------------------------------- *)
 (* no length hypothesis: count[0]/count[1] wrap modulo 2^64 (carry included) exactly as the
@@ -103,6 +107,8 @@ Theorem md5_update_app :
       md5_final c12 = HOk (md5_spec (msg ++ a ++ b)).
 Proof. exact md5_update_app_lemma. Qed.
 Print Assumptions md5_update_app.
+Example md5_update_app_hyp : md5_reached md5_init [].
+Proof. exists []. split; reflexivity. Qed.
 
 (* ------------------------------------------ HMAC ----------------------------------------- *)
 (* crypto_HMAC over the library's hash_alg tables is RFC 2104 HMAC of the standard digest, for
